@@ -125,6 +125,10 @@ class RawPayloadDecoder(AbstractSimplePayloadDecoder):
 
             component = value
 
+        if component is noValue:
+            raise error.PyAsn1Error(
+                'No value inside explicit tag %s' % (tagSet,))
+
         # the decoded value must be the last thing yielded: hand it out only
         # once the end-of-octets marker has been consumed
         yield component
@@ -1261,6 +1265,10 @@ class ChoicePayloadDecoder(ConstructedPayloadDecoderBase):
 
             if not isTagged or component is eoo.endOfOctets:
                 break
+
+        if not asn1Object.isValue:
+            raise error.PyAsn1Error(
+                'No CHOICE alternative inside explicit tag %s' % (tagSet,))
 
         yield asn1Object
 
